@@ -160,6 +160,10 @@ func (builder *builder[E]) DivUnchecked(i1, i2 frontend.Variable) frontend.Varia
 		return builder.mulConstant(i1.(expr.Term[E]), c2)
 	}
 	if i1Constant {
+		if c1.IsZero() {
+			// 0 / i2 is 0 whatever i2 is (0 / 0 included, see the API documentation)
+			return builder.cs.ToBigInt(c1)
+		}
 		res := builder.Inverse(i2)
 		return builder.mulConstant(res.(expr.Term[E]), c1)
 	}
